@@ -51,7 +51,7 @@ for d in sorted(glob.glob(ROOT + "/*/")):
         "files": sorted(os.listdir(d)),
         "what_i_ran": {
             "confirmation": "tools/confirm_seed.py %s%s : fresh `git worktree add --detach /tmp/wt-confirm-%s HEAD` of /repo; demo_test.py without the change, `git apply patch.diff`, demo again, import check%s; worktree removed" % (
-                name, "" if rnd == 1 else " --no-suite", name, "; pinned suite via tools/run_suite.py with individual re-runs of apparent new failures" if rnd == 1 else " (pinned-suite comparison: the sub-agent's run, summary in agent_suite_summary.txt)"),
+                name, "" if (rnd == 1 or (confirm or {}).get("suite")) else " --no-suite", name, "; pinned suite via tools/run_suite.py with individual re-runs of apparent new failures" if rnd == 1 else " (pinned-suite comparison: the sub-agent's run, summary in agent_suite_summary.txt)"),
             "confirmed": None if confirm is None else {"demo_passes_without_change": confirm["demo_without_change"]["passes"], "demo_fails_with_change": not confirm["demo_with_change"]["passes"],
                                                         "patch_applies": confirm["patch_applies"], "imports": confirm["imports_with_change"], "base": confirm["base"],
                                                         "suite": (confirm.get("suite") or {}).get("summary"), "new_failures": (confirm.get("suite") or {}).get("new_failures_after_individual_rerun")},
